@@ -56,6 +56,12 @@ def scenario_script(name):
     else:
         raise ValueError(name)
     mode = "tmp" if "-tmp" in name else "direct"
+    if name.endswith("-reuse"):
+        # the thread id was used before IN THIS PROCESS: an earlier thread with the same id ran to completion
+        # (its finished stream is in the final directory) before the thread under test starts
+        # (spawn_life: the earlier thread, in an OS thread of its own; pad: the call counts of the main OS thread
+        # get past those of the earlier one, strace injects by per-thread ordinal; sysmark: where the log is cut)
+        return mode, base[:1] + ["spawn_life 1000", "pad", "sysmark"] + base[1:] + body + ["free", "fini"]
     return mode, base + body + ["free", "fini"]
 
 
@@ -241,6 +247,14 @@ class Scenario:
         self.bdir = bdir
         self.mode, self.lines = scenario_script(name)
 
+    def stale_bytes(self):
+        """bytes of the finished earlier stream that is in the final thread directory when the thread starts"""
+        if self.name.endswith("-stale"):
+            return len(self.stale_files()[0])
+        if self.name.endswith("-reuse"):
+            return 8 + 28 + 12
+        return 0
+
     def stale_files(self):
         if getattr(self, "_stale", None) is None:
             d = core.mkscratch("fsst")
@@ -290,6 +304,16 @@ class Scenario:
             cmd += [self.drv, sp, os.path.join(d, "log")]
             rc, out, err = core.run(cmd, timeout=60, env=env, cwd=d)
             calls = parse_strace(os.path.join(d, "strace.log"))
+            cnt = {}
+            for c in calls:
+                k_ = (c["pid"], c["sys"])          # strace counts the invocations per thread
+                cnt[k_] = cnt.get(k_, 0) + 1
+                c["_ord"] = cnt[k_]
+            marks = [i for i, c in enumerate(calls) if c["sys"] == "unlink" and "verif-sysmark" in c["args"]]
+            if marks:
+                calls = calls[marks[-1] + 1:]      # the life of the thread under test only
+            elif self.name.endswith("-reuse"):
+                calls = []                         # stopped before the thread under test started
             tmpd = os.path.join(d, "tmp") if self.mode == "tmp" else None
             find = os.path.join(d, "final")
             state = disk_state(tmpd, find)
@@ -325,7 +349,7 @@ def libovni_range(calls):
 def inj_for(calls, i, action):
     """strace inject expression hitting exactly call i (per-syscall ordinal)"""
     s = calls[i]["sys"]
-    k = sum(1 for c in calls[:i + 1] if c["sys"] == s)
+    k = calls[i].get("_ord") or sum(1 for c in calls[:i + 1] if c["sys"] == s)
     return "%s:%s:when=%d" % (s, action, k)
 
 
@@ -339,7 +363,7 @@ def records_for(sc, ref, res, kind, outcome, jsonlast_chunk=4096):
             rd = "json_first" if r["c"].endswith("json") else "obs_first"
             break
     head = {"c": "scenario", "kind": kind, "mode": sc.mode, "flushes": rflushes, "chunk": jsonlast_chunk,
-            "rdorder": rd}
+            "rdorder": rd, "stale": sc.stale_bytes()}
     flushed = sum(c["ret"] for c in res["calls"]
                   if c["sys"] == "write" and c["ret"] and c["ret"] > 0 and is_stream_write(c, res))
     end = {"c": outcome, "obs": res["state"]["obs"], "json": res["state"]["json"], "flushed": flushed,
@@ -376,7 +400,8 @@ def main(pid, tier):
     drv = core.cc_driver(bdir, "rtdrive.c")
     # ---- design
     if pid == "C09":
-        cfgs = [("RtFs_C09.cfg", False), ("RtFs_C09_Neg.cfg", True), ("RtFs_C09_NegA.cfg", True)]
+        cfgs = [("RtFs_C09.cfg", False), ("RtFs_C09_Neg.cfg", True), ("RtFs_C09_NegA.cfg", True),
+                ("RtFs_C09_NegStale.cfg", True)]
     else:
         cfgs = [("RtFs_C10.cfg", False), ("RtFs_C10_Neg.cfg", True)]
     for cfg, neg in cfgs:
@@ -389,7 +414,8 @@ def main(pid, tier):
             ck.violation("RtFs model violates %s" % r.violated, {"tlc.out": r.out[-20000:]})
     ck.phase("tlc")
     names = ["small-direct", "small-tmp", "boundary-tmp", "one-direct", "one-tmp", "boundary-direct", "bigmeta-tmp",
-             "small-tmp-pre", "one-direct-pre", "attr-tmp", "small-tmp-stale", "small-direct-stale"]
+             "small-tmp-pre", "one-direct-pre", "attr-tmp", "small-tmp-stale", "small-direct-stale",
+             "small-tmp-reuse", "small-direct-reuse"]
     if tier == "thorough":
         names += ["big-tmp", "big-direct", "bigmeta-direct", "attr-direct"]
     execs = []
@@ -400,7 +426,7 @@ def main(pid, tier):
         if ref["rc"] != 0:
             raise core.MachineryError("reference run of %s failed: rc=%s %s" % (name, ref["rc"], ref["stderr"][-400:]))
         mark_stream_writes(ref)
-        start = libovni_range(ref["calls"])
+        start = 0 if name.endswith("-reuse") else libovni_range(ref["calls"])   # (-reuse: list cut at the marker)
         ncalls = len(ref["calls"])
         execs.append(records_for(sc, ref, ref, "replay", "returned"))
         owners.append((name, "reference", None))
